@@ -4,12 +4,21 @@ import VtModel
 def dispatch (line : String) : String :=
   match line.trimAscii.toString.splitOn " " with
   | "C20" :: args => VtModel.Cache.handle args
+  | "C07" :: args => VtModel.Path.handle args
   | "C13" :: args => VtModel.FileOffset.handle args
   | "C15" :: args => VtModel.BBoxProto.handle args
   | "C04" :: args => VtModel.Codec.handle args
   | "C17s" :: args => VtModel.Json.handleS args
   | "C17p" :: args => VtModel.Json.handleP args
   | "C18" :: args => VtModel.Vpl.handle args
+  | "C06" :: args => VtModel.Converter.handle args
+  | "C11p" :: args => VtModel.Prim.handlePrim args
+  | "C11d" :: args => VtModel.Mvt.handleDecode args
+  | "C11u" :: args => VtModel.Mvt.handleUpdate args
+  | "C10m" :: args => VtModel.Mvt.handleMerge args
+  | "C02" :: args => VtModel.PipeProto.handle args
+  | "C08" :: args => VtModel.PipeProto.handle args
+  | "C09" :: args => VtModel.PipeProto.handle args
   | _ => "bad-stream"
 
 partial def loop (hin : IO.FS.Stream) (hout : IO.FS.Stream) : IO Unit := do
